@@ -21,7 +21,15 @@ def build(R):
         return None, None
     # private copy of the runner: another check of the family may rebuild work/PitCs/ml concurrently
     exe2 = os.path.join(R.work, "runner")
-    shutil.copy(exe, exe2)
+    for attempt in range(3):
+        try:
+            shutil.copy(exe, exe2)
+            break
+        except OSError:
+            ok, exe, log = vlib.extract_build(FAM)    # another check of the family rebuilt work/PitCs/ml meanwhile
+            if not ok:
+                R.proof_problems.append("extraction/OCaml build of the PitCs model failed")
+                return None, None
     return h, exe2
 
 
@@ -138,7 +146,7 @@ def run_family(R, pid, modes, n_quick, n_thorough):
                 if f.endswith(".ops"):
                     shutil.copy(os.path.join(src, f), os.path.join(corpus_dir, d + "-" + f))
     n = n_quick if R.quick else n_thorough
-    totals = dict(cases=0, ops=0, nontrivial=set(), kinds={}, modes={})
+    totals = dict(cases=0, ops=0, nontrivial=set(), kinds={}, modes={}, stats={})
     results = []
     first = True
     for mode in modes:
@@ -188,10 +196,14 @@ def run_family(R, pid, modes, n_quick, n_thorough):
                 seen.add(("div",))
                 R.divergence("model and implementation disagree (%s case %s): %s" % (mode, f[1], (f[3] if len(f) > 3 else "")[:400]),
                              dict(mode=mode, case=f[1], gen_index=f[2], detail=(f[3] if len(f) > 3 else "")[:3000], ops=c["gen"] if c else []))
+            elif l.startswith("STAT "):
+                f = l.split(" ")
+                totals["stats"][f[1]] = totals["stats"].get(f[1], 0) + int(f[2])
             elif l.startswith("BADLINE"):
                 R.proof_problems.append("runner could not parse: " + l[:200])
         results.append((mode, tr, o))
-    R.coverage["distribution"] = dict(cases_per_mode=totals["modes"], cases_containing_op_kind=totals["kinds"], model_level_ops=totals["ops"])
+    R.coverage["distribution"] = dict(cases_per_mode=totals["modes"], cases_containing_op_kind=totals["kinds"], model_level_ops=totals["ops"],
+                                     outcomes=dict(sorted(totals["stats"].items())))
     R.coverage["rule"] = ("one evaluation = one generated history (10-60 harness-level operations over a shared-prefix universe of <= 40 names, capacity 0..8 or 1024, "
                           "then a quiescent period) executed on the real PitCsTree / fw.Thread with a white-box dump after every operation; "
                           "non-trivial = at least 3 different operation kinds and a dump that differs from the initial one; distinct by SHA-1 of the operation list")
